@@ -83,6 +83,7 @@ class Adbd(object):
         self.data_sizes = []
         self.pushed = {}                 # path -> dict(mode, data, mtime)
         self.sync_records = []
+        self.timers = []                 # [(virtual time, callable)]: things the device does by itself later (a user confirming a key)
 
     # ---- wire -------------------------------------------------------------------------------------------------
     def reset_session(self):
@@ -426,6 +427,15 @@ class SimTransportCore(object):
             if extra:
                 self.clock.now += 0.2 if t is None else min(0.2, max(t, 0))
                 buf += extra
+        if not buf and getattr(self.dev, 'timers', None):
+            # the device does something by itself within the time this read is willing to wait
+            self.dev.timers.sort(key=lambda x: x[0])
+            when, fn = self.dev.timers[0]
+            if t is None or when <= self.clock.now + max(t, 0):
+                self.dev.timers.pop(0)
+                self.clock.now = max(self.clock.now, when)
+                fn()
+                buf = self.dev.to_host
         if not buf:
             if t is None:
                 raise Fault('blocking read with nothing to read (would hang forever)')
